@@ -120,9 +120,16 @@ func (n *WNode) markEmbedded() {
 }
 
 // Encode re-encodes the tree applying mutator overrides.
-func (n *WNode) Encode() []byte {
+func (n *WNode) Encode() []byte { return n.EncodeMax(1 << 40) }
+
+// EncodeMax is Encode that stops adding fields once max bytes were produced (mutations that multiply shared
+// sub-trees would otherwise build gigabytes that are cut off afterwards anyway).
+func (n *WNode) EncodeMax(max int) []byte {
 	var out []byte
 	for _, f := range n.Fields {
+		if len(out) > max {
+			break
+		}
 		if f.RawTag != nil {
 			out = append(out, f.RawTag...)
 		} else {
@@ -142,7 +149,7 @@ func (n *WNode) Encode() []byte {
 		case protowire.BytesType:
 			body := f.Bytes
 			if f.Child != nil {
-				body = f.Child.Encode()
+				body = f.Child.EncodeMax(max - len(out))
 			}
 			l := uint64(int64(len(body)) + f.LenDelta)
 			if f.LenAbs != nil {
@@ -352,7 +359,7 @@ func MutateWire(rng *rand.Rand, valid []byte, md protoreflect.MessageDescriptor,
 			}
 		case 9: // splice a donor message into a bytes payload
 			if f.Typ == protowire.BytesType {
-				f.Child, f.Bytes = nil, donor
+				f.Child, f.Bytes = nil, append([]byte{}, donor...) // never alias the corpus
 				names = append(names, "splice-donor")
 			}
 		case 10: // flip bits in a scalar
@@ -378,14 +385,19 @@ func MutateWire(rng *rand.Rand, valid []byte, md protoreflect.MessageDescriptor,
 					body = f.Child.Encode()
 				}
 				d := []int{4, 33, 40, 100, 1000, 10001}[rng.Intn(6)]
-				for x := 0; x < d; x++ {
-					w := protowire.AppendTag(nil, f.Num, protowire.BytesType)
-					w = protowire.AppendVarint(w, uint64(len(body)))
-					body = append(w, body...)
-					if len(body) > MaxMutatedBytes {
-						break
-					}
+				// wrap the body d times in (tag, length) headers; built inside-out in one pass
+				hdrs := make([][]byte, 0, d)
+				total := len(body)
+				for x := 0; x < d && total <= MaxMutatedBytes; x++ {
+					h := protowire.AppendVarint(protowire.AppendTag(nil, f.Num, protowire.BytesType), uint64(total))
+					hdrs = append(hdrs, h)
+					total += len(h)
 				}
+				nested := make([]byte, 0, total)
+				for x := len(hdrs) - 1; x >= 0; x-- {
+					nested = append(nested, hdrs[x]...)
+				}
+				body = append(nested, body...)
 				f.Child, f.Bytes = nil, body
 				names = append(names, "self-nesting")
 			}
@@ -442,7 +454,7 @@ func MutateWire(rng *rand.Rand, valid []byte, md protoreflect.MessageDescriptor,
 	if len(names) == 0 {
 		names = append(names, "identity")
 	}
-	out := post(tree.Encode())
+	out := post(tree.EncodeMax(4 * MaxMutatedBytes))
 	if len(out) > 4*MaxMutatedBytes {
 		out = out[:4*MaxMutatedBytes]
 		names = append(names, "size-capped")
